@@ -52,7 +52,7 @@ CLAIMS = {
  "C18": dict(category="proof", design="4/C18",
   text="Layout trees (lists, options, nesting) with map/zipWith: shape, missing positions and nesting are preserved by unary and binary operations (structural induction), selection commutes with map; "
        "field rule: unary results = result coordinates followed by the operand's non-coordinate fields in order, binary results have coordinates only; the REAL seven-branch exclusion lists are transcribed "
-       "and proved equal to the documented rule on well-formed (generic-named) records, with machine-checked deviations for raw momentum-named records (known finding). Tie: layouts flat/jagged/nested-3/"
+       "and proved equal to the documented rule on well-formed (generic-named) records, and - after the repair 17af0b2 - for EVERY field list in the three full branches, raw momentum spellings included (c18_real_carried_eq_carry, no well-formedness hypothesis). Tie: layouts flat/jagged/nested-3/"
        "option(list|record)/regular/empty with extra fields on the real Awkward backend. MODEL TIED BY A DRIVER (Driver/Layout.lean, harness/layout.py, Props/C18Layout.lean): the Lean layout model itself predicts, for random layouts (depth 0-3, empty lists, options at list and record level, regular lists, no-record arrays) x 58 methods x second operands (same layout, other missing positions, object, record, shallower / deeper array, array-valued scalars, keyword conversions), the record name, coordinate fields, carried extras and the list-and-missing structure of the result; compared line by line with the real Awkward backend (1500 requests quick, 15000 thorough). Outside the agreed domain (documented in DESIGN 9.14): unequal list lengths, length-one list broadcasting, regular-dimension broadcasting from the right, keyword arrays of dimension-raising conversions.",
   note=GL + "Awkward internals (ak.zip/ak.transform) trusted.",
   technique="Lean 4 structural-induction proofs about a hand-written model + differential structure/field comparison on real layouts"),
